@@ -140,11 +140,14 @@ def oracle(run, sec, case):
                 gotok = repr(e)
             if gotok != refok or (refok and snap(c5) != ref):
                 run.fail("int-delete-as-list", case, dict(key=k))
-    for sl in (slice(0, 2), slice(1, None), slice(None, None, 2), slice(-2, None)):
+    for sl in (slice(0, 2), slice(1, None), slice(None, None, 2), slice(-2, None), slice(2, None), slice(None, None, -1), slice(1, 4, 2)):
         got = sec[sl]
         exp = list.__getitem__(sec, sl)
         if len(got) != len(exp) or any(a is not b for a, b in zip(list.__iter__(got), exp)):
             run.fail("slice-as-list", case, dict(slice=str(sl)))
+        if snap(sec) != before:      # taking a slice is a read: the section (session names included) stays as it is
+            run.fail("slice-changes-section", case, dict(slice=str(sl), before=before, after=snap(sec)))
+            break
 
 
 def one(run, seq, tr, kind, with_oracle=True):
